@@ -487,7 +487,7 @@ func ruleTaintWire(c *Checker, rule string) {
 			}
 			// local payload writer used to assemble the v0 plaintext: not a wire sink if the buffer is local and only feeds EncryptAndHash
 			if sc := cc.StaticCallee(); sc != nil && isMethod(sc, "bytes", "Buffer", "Write") {
-				if al, ok := cc.Args[0].(*ssa.Alloc); ok && al.Comment == "payloadWriter" {
+				if localAssemblyBuffer(cc.Args[0]) {
 					c.ok(rule, fnName(fn)+"|plaintext assembly buffer", instrPos(call), "a local buffer whose bytes are only copied into the plaintext that is then encrypted")
 					return
 				}
@@ -516,7 +516,7 @@ func ruleTaintWire(c *Checker, rule string) {
 						continue
 					}
 					if sc := x.Common().StaticCallee(); sc != nil && isMethod(sc, "bytes", "Buffer", "Write") {
-						if al, ok := x.Common().Args[0].(*ssa.Alloc); ok && al.Comment == "payloadWriter" {
+						if localAssemblyBuffer(x.Common().Args[0]) {
 							continue
 						}
 					}
@@ -748,4 +748,53 @@ func ruleKEYSEP(c *Checker) {
 		}
 	}
 	c.floor("KEYSEP", 6)
+}
+
+// localAssemblyBuffer: v is a function-local bytes.Buffer that is never handed out: every
+// use is a method call on it, and the result of every Bytes() call is only used as the
+// source of a copy (the plaintext assembled for EncryptAndHash). Writes into such a buffer
+// are not wire writes. (Recognised by shape, not by the variable's name.)
+func localAssemblyBuffer(v ssa.Value) bool {
+	al, ok := v.(*ssa.Alloc)
+	if !ok || !isNamedType(deref(al.Type()), "Buffer") || al.Referrers() == nil {
+		return false
+	}
+	if nt := namedOf(deref(al.Type())); nt == nil || nt.Obj().Pkg() == nil || nt.Obj().Pkg().Path() != "bytes" {
+		return false
+	}
+	nBytes := 0
+	for _, r := range *al.Referrers() {
+		call, ok := r.(*ssa.Call)
+		if !ok {
+			if _, isDbg := r.(*ssa.DebugRef); isDbg {
+				continue
+			}
+			return false
+		}
+		sc := call.Common().StaticCallee()
+		if sc == nil || len(call.Common().Args) == 0 || call.Common().Args[0] != ssa.Value(al) {
+			return false
+		}
+		switch {
+		case isMethod(sc, "bytes", "Buffer", "Write"), isMethod(sc, "bytes", "Buffer", "WriteByte"), isMethod(sc, "bytes", "Buffer", "Len"):
+		case isMethod(sc, "bytes", "Buffer", "Bytes"):
+			nBytes++
+			if call.Referrers() == nil {
+				return false
+			}
+			for _, u := range *call.Referrers() {
+				cp, ok := u.(*ssa.Call)
+				if !ok {
+					return false
+				}
+				bi, ok := cp.Call.Value.(*ssa.Builtin)
+				if !ok || bi.Name() != "copy" || cp.Call.Args[1] != ssa.Value(call) {
+					return false
+				}
+			}
+		default:
+			return false
+		}
+	}
+	return nBytes > 0
 }
